@@ -16,6 +16,12 @@ def main():
             t = strops.slice_(z3.StringVal(text), None if lo is None else z3.IntVal(lo), None if hi is None else z3.IntVal(hi))
             got = z3.simplify(t).as_string()
             assert got == text[lo:hi], (text, lo, hi, got)
+    # the native replay harness must work under the repository's interpreter (no z3 there)
+    import json
+    r = subprocess.run(['/venv/bin/python', '-m', 'pyvc.replay', 'check', 'substitution.substitute',
+                        json.dumps({'s': 'x$$y$a', 'mapping': {'a': 'v'}})], capture_output=True, text=True, cwd=HERE)
+    rr = json.loads(r.stdout)
+    assert rr.get('admissible') and rr.get('failed') == [] and rr['observed'] == {'returns': repr('x$yv')}, (r.stdout, r.stderr[-500:])
     print('pyvc selftest ok (z3 %s)' % z3.get_version_string())
     return 0 if ok else 1
 
